@@ -9,11 +9,33 @@ use vcf::record::genotypes::sample::value::genotype::Genotype as VcfGenotype;
 use crate::input::{genotype, ReadStatus, Sample};
 
 pub struct Reader<R> {
-    pub inner: bcf::Reader<R>,
+    pub inner: bcf::Reader<CountingReader<R>>,
     pub header: vcf::Header,
     pub string_maps: bcf::header::StringMaps,
     pub samples: Vec<Sample>,
     pub buf: BcfRecord,
+    // Number of bytes read up to the end of the last complete record (or the header)
+    record_end: u64,
+}
+
+/// A reader that keeps track of the number of bytes read through it.
+///
+/// This is used to tell a proper end of input from input ending in the middle of a record, since
+/// the BCF reader itself reports both as the end of input if the first length field is cut short.
+pub struct CountingReader<R> {
+    inner: R,
+    count: u64,
+}
+
+impl<R> io::Read for CountingReader<R>
+where
+    R: io::Read,
+{
+    fn read(&mut self, buf: &mut [u8]) -> io::Result<usize> {
+        let n = self.inner.read(buf)?;
+        self.count += n as u64;
+        Ok(n)
+    }
 }
 
 impl<R> Reader<R>
@@ -21,7 +43,7 @@ where
     R: io::Read,
 {
     pub fn new(inner: R) -> io::Result<Self> {
-        let mut inner = bcf::Reader::from(inner);
+        let mut inner = bcf::Reader::from(CountingReader { inner, count: 0 });
 
         let header = inner.read_header()?;
         let string_maps = bcf::header::StringMaps::try_from(&header)
@@ -34,19 +56,30 @@ where
             .map(Sample::from)
             .collect();
 
+        let record_end = inner.get_ref().count;
+
         Ok(Self {
             inner,
             header,
             string_maps,
             samples,
             buf: BcfRecord::default(),
+            record_end,
         })
     }
 
     fn read_genotypes(&mut self) -> ReadStatus<Vec<Option<VcfGenotype>>> {
         match self.inner.read_lazy_record(&mut self.buf) {
+            Ok(0) if self.inner.get_ref().count != self.record_end => {
+                ReadStatus::Error(io::Error::new(
+                    io::ErrorKind::UnexpectedEof,
+                    "input ends in the middle of a record",
+                ))
+            }
             Ok(0) => ReadStatus::Done,
             Ok(_) => {
+                self.record_end = self.inner.get_ref().count;
+
                 let result = self
                     .buf
                     .genotypes()
